@@ -71,7 +71,10 @@ StepBad(e) ==
        \* a before hook stopped execution: the run ends without error; whether the current instruction and
        \* after hooks still run is left open; no later instruction executes (next step is gated by `finished`)
        \* (if after hooks do run and one of them fails, the step fails)
+       \* (and if the instruction does run and is one that cannot complete - it faults, or it is a syscall nobody handles -
+       \* the step may report THAT error: it is the instruction's, not the stop's)
        (IF PhaseResult(LA, HA) = "error" THEN (IF e.k # "err" THEN {"C12:failing-after-hook-step-ok"} ELSE {})
+        ELSE IF (~Completes(a) \/ nohook) /\ e.k = "err" THEN {}
         ELSE IF e.k # "ok" \/ e.v THEN {"C12:stop-did-not-end-run-cleanly"} ELSE {})
        \cup (IF ~PhaseOKF(LA, HA, TRUE) THEN {"C12:after-chain"} ELSE {})
        \cup (IF ~o.finished THEN {"C12:stop-not-finished"} ELSE {})
